@@ -3,6 +3,7 @@ package props
 
 import (
 	"verifsim/core"
+	"verifsim/simsched"
 )
 
 // toy is a self-test workload for the driver itself: a tiny "system" with
@@ -40,4 +41,36 @@ func (toy) Run(ctx *core.RunCtx) {
 	ctx.Count("oracle.sum", 1)
 }
 
-func init() { core.Register(toy{}) }
+// toyRace is the self-test of the scheduler + race oracle (race binary only).
+type toyRace struct{}
+
+func (toyRace) ID() string         { return "T01" }
+func (toyRace) Runs(string) int    { return 40 }
+func (toyRace) Describe() core.Description { return core.Description{Level: "exploration", Rule: "toy"} }
+
+func (toyRace) Run(ctx *core.RunCtx) {
+	shared := make([]uint64, 8)
+	own := make([][]uint64, 3)
+	var progs [][]simsched.Step
+	for i := 0; i < 3; i++ {
+		i := i
+		own[i] = make([]uint64, 8)
+		var steps []simsched.Step
+		for k := 0; k < 4; k++ {
+			k := k
+			steps = append(steps, func() {
+				own[i][k] = shared[k] + uint64(i) // read shared, write own: no conflict
+				if ctx.Tier == "toy-race" && i > 0 && k == 2 {
+					shared[5] = uint64(i) // two tasks write the same word
+				}
+			})
+		}
+		progs = append(progs, steps)
+	}
+	r := simsched.Run(ctx.Ch, progs)
+	ctx.Event("order %v", r.Order)
+	ctx.Count("oracle.sched", 1)
+	ctx.Nontrivial = r.Switches > 0
+}
+
+func init() { core.Register(toy{}); core.Register(toyRace{}) }
